@@ -57,14 +57,19 @@ func c08World(t *testing.T, p c08Params) rt.Result {
 	r := rt.Get().Rand("c08w", int(p.Seed))
 	out := hz.Run(t, hz.Opts{Seed: p.Seed, HookMode: p.Hook}, func(w *hz.World) {
 		ps := hz.StdPeer("10.0.1.1")
-		ps.Hold = 90
 		ps.Passive = p.Dir == "in"
-		s := bring(w, ps, p.Dir, p.State, 90)
+		v := pickVariety(r, p.Dir)
+		v.apply(&ps, p.Seed)
+		s := bringV(w, ps, p.Dir, p.State, v)
 		if s == nil {
 			return
 		}
 		rc := s.rc
 		base := len(rc.Msgs())
+		sess0 := len(s.mon.Sessions) // a reused fsm has a finished session already
+		if p.State == stEstablished {
+			sess0--
+		}
 		// well-formed prefix, the fault, then a message that would have an effect
 		var stream []byte
 		wantKeepalive := 0 // KEEPALIVE replies the prefix must trigger
@@ -74,7 +79,7 @@ func c08World(t *testing.T, p c08Params) rt.Result {
 		for k := 0; k < p.Prefix; k++ {
 			switch state {
 			case stOpenSent:
-				stream = append(stream, wire.Msg(wire.TypeOpen, rc.StdOpen(ps.RemoteAS, 90, remoteIDu).Body())...)
+				stream = append(stream, wire.Msg(wire.TypeOpen, rc.StdOpen(ps.RemoteAS, v.RemoteHold, remoteIDu).Body())...)
 				wantKeepalive++
 				state = stOpenConfirm
 			case stOpenConfirm:
@@ -148,9 +153,10 @@ func c08World(t *testing.T, p c08Params) rt.Result {
 			w.Violate("%s connection not closed after the header error", desc)
 		}
 		_, opens, ss := s.mon.Snapshot()
-		wantOpens := 0
+		ss = ss[sess0:]
+		wantOpens := sess0
 		if p.State != stOpenSent || wantKeepalive > 0 {
-			wantOpens = 1
+			wantOpens++
 		}
 		if len(opens) != wantOpens {
 			w.Violate("%s OnOpenMessage count %d, want %d (messages after the fault must not be interpreted; those before must)", desc, len(opens), wantOpens)
